@@ -145,13 +145,19 @@ def run_select(sc):
             try:
                 if dim == "1d":
                     q = np.array([0.01, 0.02, 0.03, 0.04])[:n]
+                    if sc.get("order"):
+                        q = q[np.array(sc["order"][:n]) % n] if len(set(np.array(sc["order"][:n]) % n)) == n else q[::-1]
                     qmin, qmax = 0.01 * c["qmin"], 0.01 * c["qmax"]
                     full = Data1D(x=q, y=np.ones(n), dx=None, dy=np.ones(n))
                     full.qmin, full.qmax = 0.0, 1.0
                     y = np.where(np.array(c["isnan"]) == 1, np.nan, 1.0)
                     data = Data1D(x=q, y=y, dx=None, dy=np.ones(n))
                     data.mask = np.array(c["mask"])
-                    data.qmin, data.qmax = qmin, qmax
+                    if sc.get("default_window"):
+                        # the data object's own default window: every q it holds, in whatever order they are stored
+                        qmin, qmax = float(np.min(q)), float(np.max(q))
+                    else:
+                        data.qmin, data.qmax = qmin, qmax
                     ev["q"] = fvec(q)
                 else:
                     qx = np.array([0.01, 0.0, -0.03, 0.0])[:n]
